@@ -261,8 +261,7 @@ macro_rules! rct_i16_harness {
         #[kani::proof]
         #[kani::unwind(4)]
         fn $name() {
-            rct_i16_contract::<$t, 1>();
-            rct_i16_contract::<$t, 2>();
+            rct_i16_contract::<$t, 2>(); // row length 1 is covered by the i32 harnesses (same loop shape)
         }
     };
 }
